@@ -65,6 +65,13 @@ def _cases(draw, tier):
                 'choices': draw(strategies.choice_lists)}
         if fault_at is None:
             _lp.attach_decoy(case, _lp.draw_decoy(draw, inst, 30))
+        else:
+            # what else happens to the object: a retry without failure afterwards; another
+            # Solver (same file, other criteria) solved between this solve and its reading
+            case['resolve'] = pct(draw) < 50
+            if pct(draw) < 40:
+                case['bystander'] = {'inst': None, 'opts': draw(strategies.option_sets(
+                    inst, min_crit=1, max_crit=3, twopl=opts['twopl'], pc=opts['pc']))}
         return case
     want_valid = draw(st.booleans())
     stab = pct(draw) < 25
@@ -220,7 +227,9 @@ def run_solved(case):
                  'persistent': case.get('fault_persistent', True),
                  'policy': 'zero'}]
     try:
-        fr = faults.FaultRun(inst, opts, plan, choices=case['choices'], salt=case['salt']).run()
+        fr = faults.FaultRun(inst, opts, plan, choices=case['choices'], salt=case['salt'],
+                             bystander=case.get('bystander'),
+                             resolve=bool(case.get('resolve'))).run()
     except Violation as v:
         if _lp.owns_exceptions(v):
             return Result(False, ['kind=solved', 'skipped:exception'])
@@ -247,6 +256,27 @@ def run_solved(case):
                             % (which, parsed['optimisations'], [n for n, a in criteria],
                                ('solve %d' % (b.index + 1)) if b else 'none', want))
     labels = ['kind=solved', 'ncrit=%d' % len(criteria), 'cut' if b is not None else 'complete']
+    if case.get('bystander'):
+        labels.append('bystander_solver')
+    if fr.short2 is not None:
+        # the retry performs and reports all criteria again (up to its own first unproven solve)
+        b2 = next((r for r in fr.backend2.records if r.status != 'Optimal'), None)
+        want2 = [n for n, a in criteria]
+        if b2 is not None:
+            k, acc = 0, 0
+            for n, a in criteria:
+                acc += solves_of(n, a, maxrank)
+                k += 1
+                if b2.index < acc:
+                    break
+            want2 = want2[:k]
+        got2 = [line_to_crit(l) for l in restext.parse_results(fr.short2)['optimisations']]
+        if got2 != want2:
+            raise Violation('reported_order_after_retry', 'second solve() of the same Solver (no '
+                            'failure this time) lists optimisations %r, expected %r (the first '
+                            'solve was cut at %s)' % (
+                                got2, want2, ('solve %d' % (b.index + 1)) if b else 'no solve'))
+        labels.append('retry_after_cut' if b is not None else 'retry')
     flag_seq = [int(f[4:]) for f in opts['order'] if f.startswith('crit')]
     by_pos = [i for i, c in sorted(enumerate(opts['crit']), key=lambda x: x[1][1])]
     return Result(len(criteria) >= 2 and flag_seq != by_pos, labels)
